@@ -714,7 +714,17 @@ class SymNditer:
         if not isinstance(arr, _np.ndarray):
             raise TypeError("SymNditer needs an ndarray")
         self._a = arr
-        self._idx = list(_np.ndindex(*arr.shape))
+        # NumPy's default iteration order is 'K' (memory order): ask the real iterator on a float array of the same
+        # layout (a transposed view is walked column by column)
+        try:
+            proxy = _np.empty_like(arr, dtype=float, order="K")
+            it = _np.nditer(proxy, flags=["multi_index"])
+            self._idx = []
+            while not it.finished:
+                self._idx.append(tuple(it.multi_index))
+                it.iternext()
+        except Exception:
+            self._idx = list(_np.ndindex(*arr.shape))
         self._i = 0
 
     @property
@@ -727,7 +737,9 @@ class SymNditer:
 
     @property
     def index(self):
-        return self._i
+        # 'c_index': the C-order flat index of the current entry (not the position in the iteration)
+        mi = self._idx[self._i]
+        return int(_np.ravel_multi_index(mi, self._a.shape)) if mi else 0
 
     @property
     def value(self):
@@ -744,6 +756,14 @@ class SymNditer:
     def iternext(self):
         self._i += 1
         return not self.finished
+
+    def __iter__(self):
+        # `for v in np.nditer(a)`: the entries in iteration (memory) order
+        for idx in self._idx:
+            yield self._a[idx]
+
+    def __len__(self):
+        return len(self._idx)
 
 
 class _Cell:
